@@ -554,3 +554,35 @@ def rule_acksent(ctx, R):
                 R.finding(fn, "acknowledgement:may-send-nothing",
                           "%s returns NoResponse although its only sends sit in a loop over the manager's results, names are optional, and an empty result has no reply of its own: %s from a client without subscriptions gets no reply at all (Redis answers `%s nil 0`), so the client waits for ever and later replies pair with the wrong commands" % (fn.split("::")[-1], nm, nm.lower()), b.loc(nores[0]))
     R.floor("self_replying_handlers", n)
+
+
+# ---- R-PS-SUBSCRIBED ------------------------------------------------------------------------------
+def rule_subscribed(ctx, R):
+    """`is this connection a subscriber` (what keeps an idle subscriber from being timed out and
+    disconnected, which would silently end its subscriptions) means channels OR patterns: a
+    bool-returning function of the manager that takes a connection id and looks into the
+    connection's record consults both sets, or neither (presence of the record)."""
+    n = 0
+    for fn, b in sorted(ctx.prog.bodies.items()):
+        if not fn.startswith(PS) or "::tests::" in fn or b.kind == "Closure" or b.locals[0] != "bool":
+            continue
+        if not any(b.locals[k] == "u64" for k in range(1, b.nargs + 1)):
+            continue
+        seen = set()
+        for body in shared.closure_tree(ctx, b):
+            for bb in body.bbs:
+                for st in bb["s"]:
+                    if st["k"] != "=":
+                        continue
+                    r = st["r"]
+                    pl = r.get("p") if r["k"] in ("ref", "discr") else (op_place(r["o"]) if r["k"] in ("use", "cast") and not op_is_const(r["o"]) else None)
+                    for e in (pl["p"] if pl else ()):
+                        if isinstance(e, dict) and e.get("f") in (SI + "channels", SI + "patterns"):
+                            seen.add(e["f"])
+        n += 1
+        ok = len(seen) != 1
+        R.inst(fn, "subscriber-test", {"function": fn, "sets_consulted": sorted(x.split(".")[-1] for x in seen), "both_or_neither": ok})
+        if not ok:
+            R.finding(fn, "subscriber-test:one-kind-only",
+                      "%s decides whether a connection is a subscriber from its %s alone: a client holding only the other kind of subscription is not seen as a subscriber (an idle one is timed out and its subscriptions end without a word)" % (fn.split("::")[-1], sorted(seen)[0].split(".")[-1]), b.loc())
+    R.floor("subscriber_tests", n)
